@@ -31,7 +31,7 @@ def run(chk, tier):
     chk.configs.add("default")
     from props import c09
     chk.guarded(c09.r_write_hundreds, P, tier)
-    for r in (r_helpers, r_specifiers, r_composites, r_pads, r_numeric_writers, r_wallclock, r_fraction_base, r_offset_base, r_write_n_cells, r_absint):
+    for r in (r_helpers, r_specifiers, r_composites, r_pads, r_numeric_writers, r_wallclock, r_fraction_base, r_offset_base, r_write_n_cells, r_results_consumed, r_absint):
         chk.guarded(r, P, tier)
     chk.assume("the rendered text for each value (week-number formulas, 12-hour clock values, name lookup, offset rounding) is not decided; the documented table is specs/tables/strftime_spec.py")
     return {
@@ -290,3 +290,91 @@ def r_write_n_cells(chk, P, tier):
     for sg in (True, False):
         row = [tpl[(sg, pd)] for pd in pads]
         chk.expect(len(set(row)) == 3, "paddings differ (always_sign=%s)" % sg, "write_n uses the same template for two paddings (always_sign=%s): %s" % (sg, row), loc=loc)
+
+
+def r_results_consumed(chk, P, tier):
+    """No formatting error is dropped: in the writers every call that returns fmt::Result has its result consumed - handed to `?` (Try::branch), matched on, or returned - on
+    every way from the call to the next redefinition of the holding local or to the function's exit (a loop that overwrites a `result` variable per item and returns only the
+    last one loses the error of every earlier item)"""
+    from core import operands_of_block, succs
+    chk.rule("ERR.results_consumed", "in write_to / format_numeric / format_fixed / write_rfc3339 / write_rfc2822 / OffsetFormat::format every fmt::Result is consumed before it is overwritten or the function ends", floor=40)
+    fns = ["format::formatting::DelayedFormat::<I>::write_to", "format::formatting::DelayedFormat::<I>::format_numeric", "format::formatting::DelayedFormat::<I>::format_fixed",
+           "format::formatting::write_rfc3339", "format::formatting::write_rfc2822", "format::formatting::<impl format::OffsetFormat>::format"]
+    fns += sorted(n for n in P.fns if n.startswith("format::formatting::DelayedFormat::<I>::format_numeric::") and "{" not in n and P.has(n))
+    total = 0
+    for fn in fns:
+        if not P.has(fn):
+            raise AnchorLost(fn + " not found")
+        mir = P.fn(fn)["mir"]
+        blocks = mir["blocks"]
+
+        def is_res(l):
+            return P.ty_s(mir["locals"][l]) == "std::result::Result<(), std::fmt::Error>"
+
+        def uses_of(b, l, after=-1):
+            """(consumed, redefined, moved_to) looking at statements after index `after` and the terminator of block b"""
+            blk = blocks[b]
+            for i, st in enumerate(blk["s"]):
+                if i <= after or st["k"] != "assign":
+                    continue
+                rv = st["rv"]
+                reads = [o for o in ([rv.get("x")] if rv.get("x") else []) + rv.get("fields", []) + [rv.get("l"), rv.get("r")] if o]
+                if rv["k"] == "discr" and rv.get("pl", {}).get("l") == l:
+                    return ("consumed", None)
+                for o in reads:
+                    if isinstance(o, dict) and o.get("k") in ("copy", "move") and o["pl"]["l"] == l:
+                        if st["pl"]["l"] == 0:
+                            return ("consumed", None)
+                        if rv["k"] == "use" and not o["pl"]["p"] and not st["pl"]["p"]:
+                            return ("moved", (st["pl"]["l"], i))
+                        return ("consumed", None)
+                if st["pl"]["l"] == l and not st["pl"]["p"]:
+                    return ("redefined", None)
+            t = blk["t"]
+            if t["k"] == "call":
+                for a in t["args"]:
+                    if a.get("k") in ("copy", "move") and a["pl"]["l"] == l:
+                        return ("consumed", None)
+                if t.get("dest") and t["dest"]["l"] == l and not t["dest"]["p"]:
+                    return ("redefined", None)
+            if t["k"] == "switch" and t["discr"].get("k") in ("copy", "move") and t["discr"]["pl"]["l"] == l:
+                return ("consumed", None)
+            if t["k"] == "return":
+                return ("consumed", None) if l == 0 else ("exit", None)
+            return (None, None)
+        for bi, blk in enumerate(blocks):
+            t = blk["t"]
+            if blk.get("cleanup") or t["k"] != "call" or not t.get("dest") or t["dest"]["p"] or not is_res(t["dest"]["l"]) or t.get("target") is None:
+                continue
+            total += 1
+            l0 = t["dest"]["l"]
+            if l0 == 0:
+                continue
+            # search from the call's continuation
+            bad = None
+            seen = set()
+            work = [(t["target"], l0, -1)]
+            while work and bad is None:
+                b, l, after = work.pop()
+                if (b, l, after) in seen or blocks[b].get("cleanup"):
+                    continue
+                seen.add((b, l, after))
+                kind, info = uses_of(b, l, after)
+                if kind == "consumed":
+                    continue
+                if kind == "moved":
+                    work.append((b, info[0], info[1]))
+                    continue
+                if kind in ("redefined", "exit"):
+                    bad = (kind, blocks[b]["t"].get("ln"))
+                    break
+                for s_ in succs(blocks[b]["t"]):
+                    work.append((s_, l, -1))
+            callee = (t["callee"].get("resolved") or t["callee"].get("def") or "?").split("::")[-1]
+            if bad is not None:
+                chk.bad("%s: %s" % (fn.split("::")[-1], callee), "%s: the fmt::Result of the call of %s (line %s) can reach %s without having been checked (`?`), matched or returned: an error is dropped" % (
+                    fn, callee, t.get("ln"), "its next overwrite" if bad[0] == "redefined" else "the end of the function"), loc=P.loc(fn))
+            else:
+                chk.ok("%s: %s" % (fn.split("::")[-1], callee))
+    if total < 40:
+        raise AnchorLost("only %d fmt::Result calls found in the writers" % total)
